@@ -1,5 +1,5 @@
 \* quick tier: every history with at most 6 data bytes committed (ring of 6, so the ring wraps, and the round
-\* counter starts at RoundMod-1, so it wraps too); one reader.  c19.py rewrites Fix / Allow.
+\* counter starts at RoundMod-2, so it wraps too and a reader can be two rounds behind across the wrap); one reader.  c19.py rewrites Fix / Allow.
 SPECIFICATION Spec
 CONSTANTS
   Size = 6
@@ -7,8 +7,8 @@ CONSTANTS
   Readers = {0}
   RoundMod = 8
   Fix = {}
-  Record = FALSE
-  R0s = {7}
+  Record = 0
+  R0s = {6}
   GetMins = {1, 3}
   BlockSizes = {1, 2, 3}
   Offsets = {0, 1}
